@@ -26,7 +26,7 @@ LEVEL_TEXT = ("Every schedule of 2 (and 3) encoding threads with at most one pre
 LEVEL_NOTE = ("Preemption points are function-call boundaries inside rtflite (the property's own quantifier); the real interpreter can switch at any bytecode. "
               "Trusted: baton scheduler (zero-preemption schedule must reproduce solo outputs; failing schedules replayed twice), census restore between schedules.")
 
-DOCS = ["red", "paged", "multi", "figure", "plain", "grouped"]
+DOCS = ["red", "paged", "multi", "figure", "plain", "grouped", "pbA", "pbB"]
 _SNAP = None
 _SOLO = {}
 _NUM = re.compile(r"\\(cf|cb|chcbpat|brdrcf)\d+")
@@ -155,12 +155,14 @@ def eval_case(case: dict) -> dict:
             cur["n"] += 1
     return {"viol": [{k: x[k] for k in ("klass", "sig", "detail")} for x in best.values()], "evals": n, "nt_n": nt_sched,
             "cnt": {"schedules": n, "preemptions_executed": executed_switches, "violating_schedules": len(viol)},
-            "outcomes": sorted(map(str, outcomes)), "states": n, "transitions": executed_switches}
+            "outcomes": sorted(map(str, outcomes)), "states": n, "transitions": executed_switches,
+            "sample": {"docs": names, "mode": mode, "schedules": n, "last_plan": [[list(k), v] for k, v in plans[-1]] if plans else None,
+                       "last_switches": [list(x) for x in sw] if plans and n else None, "outcomes": sorted(map(str, outcomes))[:3]} if n else None}
 
 
 def plan(run):
     quick = run.tier == "quick"
-    run.rule = ("threads encode pool documents (red 4x2 with title; blue/green paginated with footnote; coloured multi-section; figure with coloured title; plain; grouped); "
+    run.rule = ("threads encode pool documents (red 4x2 with title; blue/green paginated with footnote; coloured multi-section; figure with coloured title; plain; grouped; two page_by documents with different data); "
                 "for every ordered pair (quick: 3 seed-rotated ordered pairs + one document with itself + one triple; thorough: all 30 pairs, 4 self-pairs, 6 triples) every schedule with 0 or 1 preemption at every library call boundary; 3 threads "
                 "with <= 1 preemption; every schedule with 2 preemptions inside the first W call boundaries of both threads (W=60 quick for one seed-rotated pair, 250 thorough for all pairs); thorough: 2 preemptions exhaustively on the two smallest documents. states = schedules executed; transitions = preemptions executed; non-trivial = distinct schedules in which a preemption was actually executed")
     run.assumptions = ["scheduling points are entries of functions whose code file is under <repo>/src/rtflite/, plus every line of the library "
@@ -171,7 +173,7 @@ def plan(run):
     if quick:
         # seed-rotated subset of ordered pairs, each explored exhaustively
         pairs = [all_pairs[(run.seed * 3 + k * 5) % len(all_pairs)] for k in range(3)]
-        pairs = list(dict.fromkeys(pairs + [("paged", "multi")]))[:3]
+        pairs = list(dict.fromkeys(pairs[:2] + [("pbA", "pbB")]))[:3]  # two page_by documents with different data are always included
         same = ["red"]
         trips = [("red", "paged", "multi")]
     else:
